@@ -238,6 +238,7 @@ func runScript(s script) (string, outcome) {
 	}
 
 	var received []int
+	sizeAtReceipt := "" // first disagreement between a received value and Size() asked on receipt
 	closedSeen := false
 	token := make(chan struct{})
 	consumerDone := make(chan struct{})
@@ -258,6 +259,12 @@ func runScript(s script) (string, outcome) {
 			if !ok {
 				closedSeen = true
 				return
+			}
+			// a consumer that looks at Size() the moment it is told a total: the writer does not write again before
+			// this goroutine is parked on its next token (the director waits for that), so nothing can have changed the
+			// total since the value was sent - Size() is that value, not the total of before the write (round twenty-two)
+			if sz := pw.Size(); sz != v && sizeAtReceipt == "" {
+				sizeAtReceipt = fmt.Sprintf("the consumer received %d from Status() and Size(), asked at once with the writer idle, said %d", v, sz)
 			}
 			received = append(received, v)
 		}
@@ -387,6 +394,9 @@ func runScript(s script) (string, outcome) {
 	}
 	<-consumerDone
 	oc.received = len(received)
+	if sizeAtReceipt != "" {
+		return sizeAtReceipt, oc
+	}
 	if !closedSeen {
 		return "the consumer never observed the Status() channel being closed after Close()", oc
 	}
